@@ -1,0 +1,21 @@
+// +build verif
+
+// Accessors used by the external verification harness (/verif).
+// Compiled only with -tags verif; nothing here changes behaviour.
+
+package staking
+
+// VerifAddEvidence queues an evidence exactly like the event subscription of
+// Start does when an Evidence event arrives on the mux.
+func (s *Staking) VerifAddEvidence(e Evidence) {
+	s.mutex.Lock()
+	s.evidences = append(s.evidences, e)
+	s.mutex.Unlock()
+}
+
+// VerifEvidences returns a copy of the queued (pending) evidences.
+func (s *Staking) VerifEvidences() []Evidence {
+	s.mutex.RLock()
+	defer s.mutex.RUnlock()
+	return append([]Evidence{}, s.evidences...)
+}
